@@ -370,6 +370,18 @@ pub fn names_key(f: &Finding, p: &Program, _o: &Outcome) -> Option<String> {
     }
     let got = parse_names(&f.got);
     let exp: Vec<Option<String>> = serde_json::from_str(&f.expected).unwrap_or_default();
+    // dialects with `* EXCLUDE`: an exclusion over two joined relations of which one is only known through its
+    // wildcard is written `SELECT u.* EXCLUDE (…), t.b` — the wildcard first, whatever the frame order
+    if f.sql.contains(".* EXCLUDE (") && exp.iter().all(|e| e.is_some()) {
+        let mut a: Vec<String> = got.clone();
+        let mut b: Vec<String> = exp.iter().map(|e| e.clone().unwrap_or_default()).collect();
+        a.sort();
+        b.sort();
+        let star_first = f.sql.split("SELECT ").nth(1).map(|x| x.split(',').next().unwrap_or("").contains(".* EXCLUDE (")).unwrap_or(false);
+        if a == b && star_first {
+            return Some("excluded-wildcard-written-in-front-of-earlier-columns".into());
+        }
+    }
     if got.len() != exp.len() {
         return None;
     }
